@@ -32,8 +32,53 @@ class Driver:
         self.w = dict(open=30, load=20, mutate=8, copy=4, drop=3, cli=8, redeliver=5, damage=6, restore=4, delete=4, tear=5, cachedir=3, purge=3, block=2, copyto=3)
         self.w.update(profile or {})
 
+    # multi-step motifs: the histories that earlier seeded changes needed, issued as a block now and then so that a recorded session
+    # does not depend on luck to contain them (the steps in between stay random)
+    def motifs(self):
+        r = self.r
+        l = r.choice(self.locs)
+        o = [x for x in self.locs if x != l]
+        m = r.choice(["a", "b"])
+        rpc = r.choice([1, 2, 3])
+        t = r.choice([1, 2])
+        other_v = [v for v in self.versions if f"{l}{v}" != self.cur[l]]
+        out = []
+        if self.w.get("load", 0):
+            k = r.choice(["rows", "window", "all", "int"])
+            out.append([{"op": "open", "loc": l, "uc": False, "cc": False, "rpc": rpc, "slot": t}, {"op": "load", "slot": t, "img": m, "sel": k},
+                        {"op": "mutate", "slot": t, "img": m}, {"op": "load", "slot": t, "img": m, "sel": k}, {"op": "load", "slot": t, "img": m, "sel": "all"}])
+        if self.w.get("damage", 0):
+            out.append([{"op": "restore", "loc": l}] * bool(self.dmg[l]) + [{"op": "open", "loc": l, "uc": True, "cc": False, "rpc": rpc, "slot": t}, {"op": "damage", "loc": l, "file": m, "how": r.choice(["missing", "cut"])},
+                        {"op": "open", "loc": l, "uc": True, "cc": False, "rpc": rpc, "slot": 3 - t}, {"op": "restore", "loc": l}, {"op": "open", "loc": l, "uc": True, "cc": False, "rpc": rpc, "slot": t}])
+            out.append([{"op": "restore", "loc": l}] * bool(self.dmg[l]) + [{"op": "damage", "loc": l, "file": m, "how": "cut"}, {"op": "open", "loc": l, "uc": True, "cc": True, "rpc": rpc, "slot": t},
+                        {"op": "restore", "loc": l}, {"op": "open", "loc": l, "uc": True, "cc": False, "rpc": rpc, "slot": t}])
+        if self.w.get("redeliver", 0) and other_v and not self.dmg[l]:
+            v = r.choice(other_v)
+            out.append([{"op": "open", "loc": l, "uc": True, "cc": True, "rpc": rpc, "slot": t}, {"op": "redeliver", "loc": l, "ver": v},
+                        {"op": "open", "loc": l, "uc": False, "cc": True, "rpc": rpc, "slot": t}, {"op": "open", "loc": l, "uc": True, "cc": False, "rpc": r.choice([1, 2, 3]), "slot": t}])
+            if self.w.get("cli", 0):
+                out.append([{"op": "cli", "loc": l, "img": m, "rpc": rpc, "target": "adjacent"}, {"op": "open", "loc": l, "uc": True, "cc": False, "rpc": rpc, "slot": t},
+                            {"op": "redeliver", "loc": l, "ver": v}, {"op": "cli", "loc": l, "img": m, "rpc": rpc, "target": "adjacent"},
+                            {"op": "open", "loc": l, "uc": True, "cc": False, "rpc": rpc, "slot": t}])
+                if o and self.w.get("copyto", 0):
+                    out.append([{"op": "cli", "loc": l, "img": "a", "rpc": rpc, "target": "adjacent"}, {"op": "cli", "loc": l, "img": "b", "rpc": rpc, "target": "adjacent"},
+                                {"op": "copyto", "loc": l, "dst": o[0]}, {"op": "redeliver", "loc": l, "ver": v}, {"op": "open", "loc": o[0], "uc": True, "cc": False, "rpc": rpc, "slot": t},
+                                {"op": "load", "slot": t, "img": m, "sel": "all"}])
+        if self.w.get("cli", 0) and self.w.get("open", 0):
+            out.append([{"op": "cli", "loc": l, "img": "a", "rpc": 1, "target": "adjacent"}, {"op": "cli", "loc": l, "img": "b", "rpc": 1, "target": "adjacent"},
+                        {"op": "open", "loc": l, "uc": True, "cc": False, "rpc": 1, "slot": t}, {"op": "open", "loc": l, "uc": True, "cc": False, "rpc": 3, "slot": 3 - t},
+                        {"op": "load", "slot": 3 - t, "img": m, "sel": "rows"}])
+        return out
+
     def next_op(self):
         r = self.r
+        if getattr(self, "queue", None):
+            return self.queue.pop(0)
+        if r.random() < 0.07:
+            ms = self.motifs()
+            if ms:
+                self.queue = list(r.choice(ms))
+                return self.queue.pop(0)
         for _ in range(50):
             kind = r.choices(list(self.w), weights=list(self.w.values()))[0]
             op = getattr(self, "_" + kind)()
